@@ -82,6 +82,8 @@ pub struct ConnShared {
     pub opened: [usize; 2],
     /// identity each side is told the other has
     pub claimed: [PeerId; 2],
+    /// address changes the muxer of side s still has to report (StreamMuxerEvent::AddressChange, as QUIC does on migration)
+    pub addr_changes: [VecDeque<Multiaddr>; 2],
 }
 
 impl ConnShared {
@@ -238,6 +240,14 @@ pub fn reset_conn(conn: usize) {
     c.wake_all();
 }
 
+/// Make the muxer on `side` of connection `conn` report a new remote address.
+pub fn change_address(conn: usize, side: usize, addr: Multiaddr) {
+    let c = with_net(|n| n.conns[conn].clone());
+    let mut c = c.lock().unwrap();
+    c.addr_changes[side].push_back(addr);
+    c.wake_all();
+}
+
 pub fn conn_count() -> usize {
     with_net(|n| n.conns.len())
 }
@@ -388,6 +398,7 @@ impl Future for DialFut {
                         streams: vec![],
                         opened: [0, 0],
                         claimed: [claimed_to_dialer, claimed_to_listener],
+                        addr_changes: Default::default(),
                     })));
                     if a_out != Auth::Honest {
                         n.auth_log.push((id, 0, a_out, claimed_to_dialer));
@@ -668,6 +679,9 @@ impl StreamMuxer for SimMuxer {
         let mut c = self.shared.lock().unwrap();
         self.check(&c)?;
         let side = self.side;
+        if let Some(a) = c.addr_changes[side].pop_front() {
+            return Poll::Ready(Ok(StreamMuxerEvent::AddressChange(a)));
+        }
         c.wakers[side].clear();
         c.wakers[side].push(cx.waker().clone());
         Poll::Pending
